@@ -185,8 +185,70 @@ def make_plugin_manager() -> PluginManager:
     pm.add_plugin("optimizer", "sim", ScriptedOptimizerPlugin())
     pm.add_plugin("sampler", "sim", InjectSamplerPlugin())
     pm.add_plugin("plan_handler", "sim", RecorderPlugin())
+    pm.add_plugin("sampler", "tap", TappedSamplerPlugin())
     return pm
 
 
 def user_abort() -> OptimizationAborted:
     return OptimizationAborted(exit_code=OptimizerExitCode.USER_ABORT)
+
+
+# ----------------------------------------------------------------------------
+# Tap around the real SciPy samplers: records what generate_samples returned and what the
+# underlying QMC engine produced during that call.
+TAP_LOG: list[dict] = []
+_QMC_PATCHED = [False]
+_QMC_CAPTURE: list[list] = []
+
+
+def _patch_qmc() -> None:
+    if _QMC_PATCHED[0]:
+        return
+    from scipy.stats import qmc
+
+    orig = qmc.QMCEngine.random
+
+    def random(self, n=1, *, workers=1):
+        out = orig(self, n, workers=workers)
+        if _QMC_CAPTURE:
+            _QMC_CAPTURE[-1].append(np.array(out, copy=True))
+        return out
+
+    qmc.QMCEngine.random = random
+    _QMC_PATCHED[0] = True
+
+
+class TappedSampler(Sampler):
+    def __init__(self, enopt_config, sampler_index, mask, rng) -> None:
+        from ropt.plugins.sampler.scipy import SciPySampler
+
+        _patch_qmc()
+        self._inner = SciPySampler(enopt_config, sampler_index, mask, rng)
+        self._config = enopt_config
+        self._index = sampler_index
+        self._mask = None if mask is None else np.array(mask, copy=True)
+        self._calls = 0
+
+    def generate_samples(self) -> np.ndarray:
+        _QMC_CAPTURE.append([])
+        try:
+            out = self._inner.generate_samples()
+        finally:
+            pts = _QMC_CAPTURE.pop()
+        sc = self._config.samplers[self._index]
+        TAP_LOG.append({
+            "config": self._config, "index": self._index, "call": self._calls,
+            "mask": self._mask, "shared": bool(sc.shared),
+            "method": sc.method.lower().rpartition("/")[2],
+            "samples": np.array(out, copy=True), "engine_points": pts,
+        })
+        self._calls += 1
+        return out
+
+
+class TappedSamplerPlugin(SamplerPlugin):
+    def create(self, enopt_config, sampler_index, mask, rng):
+        return TappedSampler(enopt_config, sampler_index, mask, rng)
+
+    def is_supported(self, method: str) -> bool:
+        return method.lower() in {"uniform", "norm", "truncnorm", "sobol", "halton", "lhs", "default"}
